@@ -322,6 +322,40 @@ func (c07) Run(t *tape.Tape, tier Tier) *Result {
 		sim.Send(0, 1, []int{0}, route, m1)
 		sim.Send(1, 1, []int{0}, route, m2)
 	}
+	// safe tokens the hidden errors contribute to safe details at the origin:
+	// a freshly decoded copy must contribute them too, before anything
+	// (formatting, re-encoding) has been done to it
+	var hiddenSafe []string
+	{
+		var collect []string
+		for _, n := range obs.Tree(e0, false) {
+			collect = append(collect, n.Safe...)
+		}
+		all := strings.Join(collect, "\x1e")
+		seen := map[string]bool{}
+		for _, tok := range msgTokens {
+			if strings.HasPrefix(tok, "TKS") && strings.Contains(all, tok) && !seen[tok] {
+				seen[tok] = true
+				hiddenSafe = append(hiddenSafe, tok)
+			}
+		}
+	}
+	sim.OnFresh = func(d *world.Delivery) {
+		if d.Msg.Flow != 0 || !d.Proc.Prof.IsFull() {
+			return
+		}
+		var collect []string
+		for _, n := range obs.Tree(d.Err, false) {
+			collect = append(collect, n.Safe...)
+		}
+		all := strings.Join(collect, "\x1e")
+		for _, tok := range hiddenSafe {
+			if !strings.Contains(all, tok) {
+				res.add(Violation{Prop: "C07", Oracle: "hidden-contributes-safe-details-after-transfer", Culprit: "fresh-decoded-value", Expected: "token " + tok + " in the per-layer safe details",
+					Observed: short(all), Where: fmt.Sprintf("hop %d at process %d, before the value was formatted or re-encoded", d.Msg.Hop, d.Proc.ID)})
+			}
+		}
+	}
 	held := map[[2]int]*heldPair{}
 	sim.OnDeliver = func(d *world.Delivery) {
 		where := fmt.Sprintf("hop %d at process %d (%s) via %s", d.Msg.Hop, d.Proc.ID, d.Proc.Prof.Name, routeString(d.Msg.Path))
